@@ -4,6 +4,7 @@
                     frame in standby;
     - C07_idle    : N_Cr runs only during a reception, N_Bs only while waiting for Flow Control;
     - C12         : the transmitter is idle iff it holds no active request;
+    - C04         : Wait frames are counted per message: the count is zero whenever no First Frame is awaiting its Flow Control;
     - the facts that make the modelled crash sites unreachable (C05 / C16). *)
 From IsoTp Require Import Base.Prelude Model.Micro Spec.ConfigSpec Proofs.FramesP.
 
@@ -27,7 +28,8 @@ Record WF (c : cfg) (s : layer) : Prop := {
   wf_queue    : Forall req_fresh (tx_queue s);
   wf_req      : forall r, active s = Some r -> 0 <= r_consumed r <= r_size r;
   wf_tcr      : t_timeout (timer_rx_cf s) = p_tcr_ns (c_p c);
-  wf_tbs      : t_timeout (timer_rx_fc s) = p_tbs_ns (c_p c)
+  wf_tbs      : t_timeout (timer_rx_fc s) = p_tbs_ns (c_p c);
+  wf_wft      : tx_state s <> TxWaitFC -> tx_state s <> TxTransmitCF -> wft_counter s = 0
 }.
 
 Lemma WF_init c t0 : WF c (init_layer c t0).
